@@ -1071,6 +1071,128 @@ fn c29_case(case: &FbCase) -> Report {
     rep
 }
 
+//------------ DeltaPlan: nothing / deltas / snapshot ------------------------------
+
+/// Rows of `DeltaPlan.tla`.  Per row: a server with versions 1..5 of one session, a client copy at `local`, then the
+/// notification the row describes under the two limits of the row.  Compared with the specification's plan: the requests
+/// made after the notification file and the snapshot reason in the metrics (differences are divergences from the model,
+/// no property speaks about the plan); C25's own oracle is evaluated on every row as well.
+fn plan_main(args: &Args) -> i32 {
+    let rows = read_behaviours(args.input.as_deref().expect("--in"));
+    let factory = Factory::new();
+    let mut rep = Report::new("rrdp");
+    rep.touch(C25);
+    let limit = args.opt_usize("limit", usize::MAX);
+    let mut order: Vec<usize> = (0..rows.len()).collect();
+    if limit < rows.len() {
+        let mut rng = Rng::new(args.seed);
+        rng.shuffle(&mut order);
+        order.truncate(limit);
+        order.sort();
+    }
+    let mut differ = 0u64;
+    let mut kinds: BTreeMap<String, u64> = BTreeMap::new();
+    for idx in order.iter() {
+        let row = &rows[*idx];
+        let res = catch(std::panic::AssertUnwindSafe(|| plan_row(&factory, row)));
+        match res {
+            Ok((r, d, kind)) => { rep.absorb(r); differ += d; *kinds.entry(kind).or_default() += 1; }
+            Err(msg) => rep.violation(C25, "plan/panic", format!("panic: {msg}"), row.clone(), json!({"panic": msg})),
+        }
+    }
+    rep.note(C25, "plan_rows", json!(order.len()));
+    rep.note(C25, "plan_rows_differing_from_DeltaPlan", json!(differ));
+    rep.note(C25, "plan_kinds", json!(kinds));
+    rep.write(args)
+}
+
+fn plan_row(factory: &Factory, row: &Value) -> (Report, u64, String) {
+    let mut rep = Report::new("rrdp");
+    let rig = Rig::new(factory);
+    let base = rig.srv.rsync_base();
+    let objs_at = |s: u64, salt: &str| -> Objects {
+        let mut o: Objects = (2..=s).map(|i| (format!("{base}o{i}.roa"), Bytes::from(format!("object {i}{salt}")))).collect();
+        o.insert(format!("{base}o1.roa"), Bytes::from(format!("first object as of {s}{salt}")));
+        o
+    };
+    const MAX: u64 = 5;
+    // no validators: a notification answered with 304 is not planned at all (Rrdp.tla has that step)
+    rig.srv.set_validators(false, false);
+    for s in 1..=MAX { rig.srv.publish(objs_at(s, "")); }
+    let local = row["local"].as_u64().unwrap();
+    let notified = row["notified"].as_u64().unwrap();
+    let same = row["same"].as_bool().unwrap();
+    let plan = &row["plan"];
+    let kind = plan["kind"].as_str().unwrap();
+    let label = format!("{}{}", kind, if kind == "snapshot" { format!("/{}", plan["reason"].as_str().unwrap()) } else { String::new() });
+    // the client copy
+    rig.srv.announce(local as usize - 1);
+    let prime = rig.collector(&rig.config());
+    match client_run(&prime, &rig.ca, &rig.srv, &[]) {
+        Ok(o) if o.updated => {}
+        _ => { rep.divergence(C25, format!("plan row {row}: the copy at serial {local} could not be produced")); return (rep, 0, label) }
+    }
+    drop(prime);
+    if rig.read_archive().map(|l| l.serial) != Some(local) {
+        rep.divergence(C25, format!("plan row {row}: the copy is not at serial {local}")); return (rep, 0, label)
+    }
+    // the notification of the row
+    let expected_objs = if same {
+        rig.srv.announce(notified as usize - 1);
+        rig.srv.with(|s| s.retain = row["retain"].as_u64().unwrap() as usize);
+        let fs = row["fault_serial"].as_u64().unwrap();
+        let list = match row["fault"].as_str().unwrap() {
+            "none" => ListFault::None, "drop_last" => ListFault::DropLast, "drop_all" => ListFault::DropAll,
+            "gap" => ListFault::Gap(fs), "dup" => ListFault::Duplicate(fs), x => panic!("list fault {x}"),
+        };
+        rig.srv.set_faults(FaultPlan { list, ..Default::default() });
+        objs_at(notified, "")
+    } else {
+        let o = objs_at(notified, " of the new session");
+        rig.srv.new_session(notified, o.clone());
+        o
+    };
+    let mut cfg = rig.config();
+    cfg.rrdp_max_delta_count = row["maxc"].as_u64().unwrap() as usize;
+    cfg.rrdp_max_delta_list_len = row["maxl"].as_u64().unwrap() as usize;
+    let collector = rig.collector(&cfg);
+    let obs = match client_run(&collector, &rig.ca, &rig.srv, &[]) {
+        Ok(o) => o,
+        Err(e) => { rep.divergence(C25, format!("plan row {row}: {e}")); return (rep, 0, label) }
+    };
+    rig.srv.clear_faults();
+    let after = rig.read_archive();
+    // ---- C25 on this row
+    rep.eval(C25);
+    rep.trace(C25);
+    rep.nontrivial(C25, format!("plan/{}/{}", label, row["fault"].as_str().unwrap()));
+    let made: Vec<String> = obs.requests.iter().filter(|q| !matches!(q.kind, ReqKind::Notify)).map(|q| format!("{:?}", q.kind)).collect();
+    let observed = json!({"updated": obs.updated, "requests": made, "snapshot_reason": obs.snapshot_reason,
+                          "copy_after": after.as_ref().map(|l| json!({"serial": l.serial, "objects": l.objects.len()}))});
+    if obs.updated {
+        let ok = after.as_ref().map(|l| l.serial == notified && l.objects == expected_objs).unwrap_or(false);
+        if !ok {
+            rep.violation(C25, &format!("plan/{label}/copy-differs"),
+                format!("the update is reported successful, the copy is not the server's state at serial {notified}"), row.clone(), observed.clone());
+        }
+    }
+    // ---- the plan
+    let want: Vec<String> = match kind {
+        "nothing" => vec![],
+        "deltas" => plan["deltas"].as_array().unwrap().iter().map(|s| format!("Delta({})", s.as_u64().unwrap())).collect(),
+        _ => vec![format!("Snapshot({notified})")],
+    };
+    let want_reason = if kind == "snapshot" { Some(plan["reason"].as_str().unwrap().to_string()) } else { None };
+    let mut differ = 0;
+    if made != want || obs.snapshot_reason != want_reason || !obs.updated {
+        differ = 1;
+        rep.divergence(C25, format!("plan row {row}: DeltaPlan.tla expects requests {want:?} and reason {want_reason:?}; the collector made {made:?}, reason {:?}, updated {}",
+            obs.snapshot_reason, obs.updated));
+    }
+    if differ == 0 && kind != "nothing" { rep.sample(C25, json!({"plan_row": row, "observed": observed})); }
+    (rep, differ, label)
+}
+
 //------------ entry point ---------------------------------------------------------
 
 pub fn main(args: &Args) -> i32 {
@@ -1079,6 +1201,7 @@ pub fn main(args: &Args) -> i32 {
         "c38" => c38_main(args),
         "c29" => c29_main(args),
         "c38tls" => c38_tls_main(args),
+        "plan" => plan_main(args),
         "selftest" => match dbl::self_test() { Ok(()) => { println!("ok"); 0 } Err(e) => { eprintln!("{e}"); 2 } },
         other => { eprintln!("vh rrdp: unknown mode {other}"); 2 }
     }
